@@ -408,6 +408,10 @@ def run(prog, ctx):
 
     # ------------------------------------------------------------------ D4
     _check_closed_form_scheme(prog, ctx)
+    # ------------------------------------------------------------------ D5 - D7
+    check_scheme_of_this_call(prog, ctx)
+    check_fresh_accumulator(prog, ctx)
+    check_component_axis_last(prog, ctx)
 
 
 def _enumerator_kind(t):
@@ -729,3 +733,134 @@ def _check_global_set_grid(ctx, sg):
     ctx.check(not problems, "C02.D3", key, sg.loc(),
               "per dimension, points and weights derive from the same grid_points[d] with the same boundary slice",
               "GlobalGrid.set_grid: " + "; ".join(problems))
+
+
+def check_scheme_of_this_call(prog, ctx):
+    """C02.D5: every call perform_operation(lmin, lmax) combines the component grids of THAT (lmin, lmax): on every path to the loop over
+    self.scheme the scheme was re-computed from the call's own arguments (set_combi_parameters(lmin, lmax), or its body in place), and
+    the operation was re-initialised; no guard of the kind "only if the levels changed" may skip either."""
+    sc = prog.cls("StandardCombi.StandardCombi")
+    fi = prog.func("StandardCombi.StandardCombi.perform_operation")
+    ctx.touch(fi)
+    c = cfg_of(fi)
+    tm = Terms(fi.node, max_depth=0)
+    me = fi.self_name
+    loops = [n for n in walk_local(fi.node) if isinstance(n, ast.For) and R.self_attr(n.iter, me) == "scheme"]
+    if not loops:
+        raise AnalysisError("anchor vanished: the loop over self.scheme in StandardCombi.perform_operation")
+    p_lmin, p_lmax = fi.params[1], fi.params[2]
+    setters = []
+    for call in R.calls_in(fi.node, method="set_combi_parameters"):
+        if isinstance(call.func.value, ast.Name) and call.func.value.id == me and len(call.args) >= 2 \
+                and tm.term(call.args[0]) == ("n", p_lmin) and tm.term(call.args[1]) == ("n", p_lmax):
+            setters.append(R.cfg_node(fi, call))
+    for s_ in R.self_stores(fi, "scheme"):
+        t = tm.term(s_.value) if s_.value is not None else None
+        if s_.kind == "plain" and t is not None and t[0] == "call" and t[1][0] == "a" and t[1][2] == "getCombiScheme" \
+                and len(t[2]) >= 2 and t[2][0] == ("n", p_lmin) and t[2][1] == ("n", p_lmax):
+            setters.append(R.cfg_node(fi, s_.stmt))
+    inits = [R.cfg_node(fi, call) for call in R.calls_in(fi.node, method="initialize")
+             if R.self_attr(call.func.value, me) == "operation"]
+    for k, loop in enumerate(loops):
+        ln = c.node_of(loop)
+        ok_s = any(sn is not None and c.dominates(sn, ln) for sn in setters)
+        ctx.check(ok_s, "C02.D5", R.key_of(fi, "scheme-recomputed#%d" % k), fi.loc(loop),
+                  "the scheme combined by this call is computed from this call's lmin / lmax on every path",
+                  "a path reaches the loop over self.scheme without `self.set_combi_parameters(%s, %s)` (or the scheme being recomputed from "
+                  "these arguments): a second call on the same object with other levels combines the component grids of the earlier call"
+                  % (p_lmin, p_lmax))
+        ok_i = any(sn is not None and c.dominates(sn, ln) for sn in inits)
+        ctx.check(ok_i, "C02.D5", R.key_of(fi, "operation-initialised#%d" % k), fi.loc(loop),
+                  "the operation is initialised before the component grids are evaluated, on every path",
+                  "a path reaches the loop over self.scheme without `self.operation.initialize()`: the accumulator still holds the result of "
+                  "the previous call")
+    ctx.floor("C02.D5", len(loops), 1, "loops over self.scheme in perform_operation")
+
+
+def _returns_attribute_itself(fi, attr):
+    tm = Terms(fi.node, max_depth=0)
+    rets = R.return_paths(fi)[0]
+    return bool(rets) and any(r.ast.value is not None and tm.term(r.ast.value) == ("a", ("n", fi.self_name), attr) for r in rets)
+
+
+def check_fresh_accumulator(prog, ctx):
+    """C02.D6: perform_operation returns operation.get_result(); Integration.get_result hands out self.integral ITSELF.  Results of
+    earlier calls stay valid only if every start of a run binds self.integral to a new array: initialize() must re-assign the
+    attribute to a freshly allocated array on every path and must not zero the existing array in place (`fill`, `[:] = 0`, `*= 0`)."""
+    integ = prog.cls("GridOperation.Integration")
+    n = 0
+    for c_ in prog.all_subclasses(integ):
+        gr = prog.lookup_method(c_, "get_result")
+        ini = c_.methods.get("initialize")
+        if ini is None or gr is None or gr.cls is None or gr.cls.qual != "GridOperation.Integration":
+            continue
+        if not _returns_attribute_itself(gr, "integral"):
+            continue                          # a copy is handed out: nothing to demand from initialize
+        n += 1
+        ctx.touch(ini, gr)
+        cf = cfg_of(ini)
+        tm = Terms(ini.node, max_depth=0)
+        fresh_nodes, inplace = [], []
+        for s_ in R.self_stores(ini, "integral"):
+            if s_.kind == "plain":
+                t = tm.term(s_.value)
+                is_fresh = t[0] == "call" and isinstance(t[1], tuple) and t[1][0] == "a" and t[1][2] in ("zeros", "zeros_like", "empty", "full", "array", "ones")
+                if is_fresh:
+                    fresh_nodes.append(R.cfg_node(ini, s_.stmt))
+                else:
+                    inplace.append(s_)
+            else:
+                inplace.append(s_)
+        for call in R.calls_in(ini.node):
+            f_ = call.func
+            if isinstance(f_, ast.Attribute) and f_.attr in ("fill", "put", "itemset") and R.self_attr(f_.value, ini.self_name) == "integral":
+                inplace.append(R.Store("integral", "mutator", f_.value, R.stmt_of(call), call=call))
+        on_all = bool(fresh_nodes) and cf.must_pass_through(cf.entry, [cf.exit], [x for x in fresh_nodes if x is not None])
+        ok = on_all and not inplace
+        why = ("`%s` resets the accumulator in place" % src(inplace[0].stmt)[:80]) if inplace else "a path through initialize() does not re-assign self.integral"
+        ctx.check(ok, "C02.D6", R.key_of(ini, "fresh-accumulator"), ini.loc(inplace[0].stmt) if inplace else ini.loc(),
+                  "every run starts with a newly allocated accumulator (get_result hands the accumulator itself to the caller)",
+                  "%s; get_result returns self.integral itself, so the result array an earlier perform_operation call returned is overwritten "
+                  "by the next run" % why)
+    ctx.floor("C02.D6", n, 1, "initialize() of operations whose get_result returns the accumulator itself")
+
+
+def check_component_axis_last(prog, ctx):
+    """C02.D7: the nodal values of a component grid arrive as an (n_points, n_components) array in the row-major order of the mesh.
+    Bringing them into mesh shape keeps the component axis LAST (select `values[:, d]` and reshape to the mesh shape, or reshape to
+    (*mesh, n_components)); a reshape that puts the component count first reinterprets the buffer and scatters the components over the
+    mesh nodes for every vector-valued function."""
+    fi = prog.func("GridOperation.Interpolation.interpolate_points")
+    ctx.touch(fi)
+    tm = Terms(fi.node, max_depth=0)
+    vparam = fi.params[0] if fi.is_static else fi.params[1]
+    ncomp = ("call", ("n", "len"), (("s", ("n", vparam), ("c", "0")),), ())
+    bad, n = [], 0
+    for call in [x for x in ast.walk(fi.node) if isinstance(x, ast.Call)]:
+        f_ = call.func
+        name = f_.attr if isinstance(f_, ast.Attribute) else (f_.id if isinstance(f_, ast.Name) else None)
+        if name != "reshape":
+            continue
+        if isinstance(f_, ast.Attribute) and not (isinstance(f_.value, ast.Name) and f_.value.id in ("np", "numpy")):
+            arr, shape = f_.value, call.args
+        else:
+            arr, shape = (call.args[0] if call.args else None), call.args[1:]
+        if arr is None:
+            continue
+        cn = cfg_of(fi).node_containing(call)
+        at = R.resolve_locals(fi, tm.term(arr), cn, tm) if cn is not None and cn.ast is not None else tm.term(arr)
+        if at != ("n", vparam):
+            continue                       # a slice / a transposed array / something else: not the raw buffer
+        n += 1
+        first = shape[0] if shape else None
+        if isinstance(first, (ast.Tuple, ast.List)) and first.elts:
+            first = first.elts[0]
+        if isinstance(first, ast.Starred):
+            first = None
+        ft = R.resolve_locals(fi, tm.term(first), cn, tm) if first is not None and cn is not None and cn.ast is not None else (tm.term(first) if first is not None else None)
+        if ft == ncomp:
+            bad.append(call)
+    ctx.check(not bad, "C02.D7", R.key_of(fi, "component-axis-last"), fi.loc(bad[0]) if bad else fi.loc(),
+              "the value buffer is never reshaped with the component count as leading axis (%d reshapes of the raw buffer)" % n,
+              "`%s` reshapes the (n_points, n_components) buffer `%s` with the component count first: this reinterprets the memory instead of "
+              "transposing it, the components of a vector-valued function are scattered over the mesh nodes" % (src(bad[0])[:90] if bad else "", vparam))
